@@ -658,6 +658,9 @@ func replay(l *loaded, disk map[string]string, registry map[string][]string, rep
 			cmd.Env = append(os.Environ(), "GOFLAGS=-mod=mod", "GOPROXY=off", "GOSUMDB=off", "GOTOOLCHAIN=local", "VERIF_REPLAY_DIR="+curDir)
 			o, err = cmd.CombinedOutput()
 			for _, ln := range strings.Split(string(o), "\n") {
+				if i := strings.Index(ln, "VERIF-REPLAY "); i > 0 {
+					ln = ln[i:] // the code under test printed something without a newline first
+				}
 				if strings.HasPrefix(ln, "VERIF-REPLAY ") {
 					parts := strings.SplitN(ln, " ", 3)
 					if len(parts) == 3 && !strings.HasPrefix(parts[2], "skip") {
